@@ -6,7 +6,9 @@ A state id is "<profile>/<variant>".  Every state is deterministic given (tree, 
 fake clocks (tool_env), seeded python RNG for garbage bytes.
 
   build_states(b, env, outdir, tier, seed) -> list of State(id, profile, variant, path, undo, kind)
-     kind in {"clean", "journal", "orphan", "mmp", "quota", "corrupt", "undo"}; everything but "clean" is non-trivial.
+     kind in {"clean", "journal", "orphan", "mmp", "quota", "corrupt", "undo", "undolog"}; everything but "clean" is non-trivial.
+     kind "undolog": a (target, undo log) pair of the e2undo catalogue of spec/ToolRunUniv.tla (build_undo_catalogue);
+     the journal x orphan axis points of that module are variants "ax_<j>_<o>" (axis_variant maps a point to its variant).
 """
 import os, struct, random, subprocess, shutil, re, hashlib, threading
 import concurrent.futures as cf
@@ -755,6 +757,186 @@ VARIANTS = [
 NRAND = {"quick": 2, "thorough": 16}
 
 
+# ---------------------------------------------------------------- undo logs (catalogue of spec/ToolRunUniv.tla)
+# File format (lib/ext2fs/undo_io.c): blocks of hdr.block_size; block 0 header (512 bytes used), block super_offset = copy
+# of the superblock (s_magic inverted), from block key_offset: key block (magic, crc, reserved, 16-byte keys
+# {fsblk, blk_crc, size}) followed by the data of its keys, then the next key block ...
+UNDO_HDR = struct.Struct("<8sQQQIIIIIIIIQ")        # magic num_keys super_offset key_offset block_size fs_block_size sb_crc state
+                                                   # f_compat f_incompat f_rocompat pad32 fs_offset ; header_crc at 508
+
+
+class UndoLog:
+    def __init__(self, data):
+        self.data = bytearray(data)
+        (self.magic, self.num_keys, self.super_off, self.key_off, self.bs, self.fs_bs, self.sb_crc, self.state,
+         self.f_compat, self.f_incompat, self.f_rocompat, _pad, self.fs_offset) = UNDO_HDR.unpack_from(self.data, 0)
+        if self.magic != b"E2UNDO02" or self.bs < 1024:
+            raise GenError("recording did not leave an undo file (magic %r block size %d)" % (self.magic, self.bs))
+        self.kpb = self.bs // 16 - 1
+        self.keyblocks, self.keys = [], []          # block numbers of the key blocks; (keyblock, index, fsblk, crc, size, fileblk)
+        lblk, i = self.key_off, 0
+        while i < self.num_keys:
+            kb = lblk
+            self.keyblocks.append(kb)
+            lblk += 1
+            for j in range(min(self.kpb, self.num_keys - i)):
+                fsblk, crc, size = struct.unpack_from("<QII", self.data, kb * self.bs + 16 + 16 * j)
+                self.keys.append((kb, j, fsblk, crc, size, lblk))
+                lblk += (size + self.bs - 1) // self.bs
+            i += self.kpb
+        self.end_blk = lblk
+
+    def set_hdr(self, off, fmt, val, fix=True):
+        struct.pack_into(fmt, self.data, off, val)
+        if fix:
+            struct.pack_into("<I", self.data, 508, crc32c(0xFFFFFFFF, bytes(self.data[:508])))
+
+    def fix_keyblock(self, kb):
+        o = kb * self.bs
+        self.data[o + 4:o + 8] = b"\0\0\0\0"
+        struct.pack_into("<I", self.data, o + 4, crc32c(0xFFFFFFFF, bytes(self.data[o:o + self.bs])))
+
+
+def _undo_defect(log_bytes, defect, rng):
+    """Apply one defect of the catalogue to a finished log; returns the bytes of the damaged log."""
+    u = UndoLog(log_bytes)
+    bs, d = u.bs, u.data
+    first, last = u.keys[0], u.keys[-1]
+    cut = {"trunc_empty": 0, "trunc_hdr": 100, "trunc_1blk": bs, "trunc_2blk": u.key_off * bs, "trunc_keyblock": u.key_off * bs + bs // 2,
+           "trunc_data_first": (u.key_off + 1) * bs,
+           "trunc_keyblock2": u.keyblocks[1] * bs if len(u.keyblocks) > 1 else None, "trunc_data_last": last[5] * bs}
+    if defect in cut:
+        if cut[defect] is None or cut[defect] >= len(d):
+            raise GenError("undo log too small for defect %s (%d key blocks, %d bytes)" % (defect, len(u.keyblocks), len(d)))
+        return bytes(d[:cut[defect]])
+    if defect == "none":
+        pass
+    elif defect == "unfinished":
+        u.set_hdr(44, "<I", u.state & ~1)
+    elif defect == "hdr_magic":
+        d[0] ^= 0xFF
+    elif defect == "hdr_csum":
+        d[100] ^= 0xFF                                  # padding byte, header_crc left stale
+    elif defect == "hdr_bs0":
+        u.set_hdr(32, "<I", 0)
+    elif defect == "hdr_bs_small":
+        u.set_hdr(32, "<I", 512)
+    elif defect == "hdr_incompat":
+        u.set_hdr(52, "<I", 1)
+    elif defect == "hdr_numkeys_more":
+        u.set_hdr(8, "<Q", u.num_keys + 200)
+    elif defect == "hdr_fs_offset":
+        u.set_hdr(48, "<I", u.f_compat | 1, fix=False)
+        u.set_hdr(64, "<Q", 4096)
+    elif defect == "key_magic":
+        d[u.keyblocks[0] * bs] ^= 0xFF
+    elif defect == "key_csum":
+        d[u.keyblocks[0] * bs + 8] ^= 0xFF             # the reserved field: the keys themselves stay intact
+    elif defect == "key_size_huge":
+        struct.pack_into("<I", d, first[0] * bs + 16 + 16 * first[1] + 12, 0x40000000)
+        u.fix_keyblock(first[0])
+    elif defect == "key_fsblk_far":
+        struct.pack_into("<Q", d, first[0] * bs + 16 + 16 * first[1], 0x7FFFFFFF)
+        u.fix_keyblock(first[0])
+    elif defect == "data_csum_first":
+        d[first[5] * bs + 5] ^= 0xFF
+    elif defect == "data_csum_last":
+        d[last[5] * bs + 5] ^= 0xFF
+    elif defect == "sb_copy":
+        d[u.super_off * bs:u.super_off * bs + 1024] = bytes(rng.getrandbits(8) for _ in range(1024))
+    else:
+        raise GenError("no recipe for undo log defect %r of the catalogue" % defect)
+    return bytes(d)
+
+
+def matching_undo_file(img):
+    """A finished undo file that MATCHES the image as it is (undo_open() re-opens such a file): header, superblock copy,
+    one key block with one key (the last block of the image, before-image = its present content)."""
+    bs = 1024
+    sb = bytearray(rd(img, 1024, 1024))
+    sb_crc = crc32c(0xFFFFFFFF, bytes(sb))
+    nblk = os.path.getsize(img) // bs
+    blk = rd(img, (nblk - 1) * bs, bs)
+    hdr = bytearray(bs)
+    UNDO_HDR.pack_into(hdr, 0, b"E2UNDO02", 1, 1, 2, bs, bs, sb_crc, 1, 0, 0, 0, 0, 0)
+    struct.pack_into("<I", hdr, 508, crc32c(0xFFFFFFFF, bytes(hdr[:508])))
+    struct.pack_into("<H", sb, 56, ~struct.unpack_from("<H", sb, 56)[0] & 0xFFFF)
+    kb = bytearray(bs)
+    struct.pack_into("<IIQ", kb, 0, 0xCADECADE, 0, 0)
+    struct.pack_into("<QII", kb, 16, nblk - 1, crc32c(0xFFFFFFFF, blk), bs)
+    struct.pack_into("<I", kb, 4, crc32c(0xFFFFFFFF, bytes(kb)))
+    return bytes(hdr) + bytes(sb) + bytes(kb) + blk
+
+
+def build_undo_catalogue(ctx, prof, base, outdir, catalogue, iotrace):
+    """catalogue: list of {defect, rel} (spec).  One recording (debugfs -w -z: > keys-per-block scattered free blocks zapped,
+    a directory and a file made) gives the finished log and the `recorded` target; `reverted` = the base image;
+    `other_fs` = a fresh ext2 file system; killed_* = the same recording ended by _exit() after the n-th write-class call on
+    the target (iotrace.so VERIF_CRASH_AFTER), with the target it left.  Returns [State] (id <prof>/undo:<defect>:<rel>)."""
+    cand = list(range(5001, 5001 + 2 * 400, 2))
+    out = ctx.dbg(base, ["testb %d" % n for n in cand], write=False)
+    free = [int(m.group(1)) for m in re.finditer(r"Block (\d+) not in use", out)]
+    if len(free) < 100:
+        raise GenError("fewer than 100 free blocks among the candidates on %s" % prof)
+    script = ["zap_block -p 0x5a %d" % n for n in free[:100]] + ["mkdir undo_dir", "write small undo_dir/f", "write mid undo_mid"]
+
+    def record(tag, env_extra=None):
+        img = os.path.join(outdir, "%s__undo_%s.img" % (prof, tag))
+        log = os.path.join(outdir, "%s__undo_%s.log" % (prof, tag))
+        sparse_copy(base, img)
+        if os.path.exists(log):
+            os.unlink(log)
+        e = dict(env_extra or {})
+        if e:
+            e.update({"LD_PRELOAD": iotrace, "VERIF_IOTRACE_TARGET": img, "VERIF_IOTRACE_OUT": os.devnull})
+        rc, o = ctx.dbg(img, script, extra=["-z", log], env_extra=e or None, want_rc=True)
+        if e and rc != 97:
+            raise GenError("recording on %s was not ended by the injected crash (rc=%d):\n%s" % (prof, rc, o[-500:]))
+        if not os.path.exists(log) or os.path.getsize(log) == 0:
+            raise GenError("recording on %s left no undo file:\n%s" % (prof, o[-500:]))
+        return img, log
+    rec_img, rec_log = record("rec")
+    good = open(rec_log, "rb").read()
+    if Geom(base).incompat & 0x100:
+        # MMP profile: the generator's debugfs -w ran with the feature bit hidden (Ctx.dbg), so the superblock copy in the
+        # log lacks it; `recorded` means "the log's superblock copy is the target's superblock": re-sync copy and sb_crc
+        u = UndoLog(good)
+        sb = bytearray(rd(rec_img, 1024, 1024))
+        u.set_hdr(40, "<I", crc32c(0xFFFFFFFF, bytes(sb)))
+        struct.pack_into("<H", sb, 56, ~struct.unpack_from("<H", sb, 56)[0] & 0xFFFF)
+        u.data[u.super_off * u.bs:u.super_off * u.bs + 1024] = sb
+        good = bytes(u.data)
+        with open(rec_log, "wb") as f:
+            f.write(good)
+    u = UndoLog(good)
+    if not (u.state & 1) or len(u.keyblocks) < 2 or u.end_blk * u.bs != len(good):
+        raise GenError("recorded undo log of %s is not what the catalogue needs (state %d, %d key blocks, %d keys, end %d, size %d)"
+                       % (prof, u.state, len(u.keyblocks), u.num_keys, u.end_blk * u.bs, len(good)))
+    other = os.path.join(outdir, "%s__undo_other.img" % prof)
+    ctx.run([os.path.join(ctx.b, "misc", "mke2fs"), "-q", "-F", "-t", "ext2", "-b", str(BS), "-U", "99999999-8888-7777-6666-555555555555",
+             other, "8M"])
+    targets = {"recorded": rec_img, "reverted": base, "other_fs": other}
+    killed = {}
+    states = []
+    for c in catalogue:
+        d, rel = c["defect"], c["rel"]
+        sid = "%s/undo:%s:%s" % (prof, d, rel)
+        if d in ("killed_early", "killed_late"):
+            if d not in killed:
+                killed[d] = record(d, {"VERIF_CRASH_AFTER": "2" if d == "killed_early" else "60"})
+            img, log = killed[d]
+            if rel != "recorded":
+                img = targets[rel]
+        else:
+            log = os.path.join(outdir, "%s__undo_%s.log" % (prof, d))
+            if not os.path.exists(log):
+                with open(log, "wb") as f:
+                    f.write(_undo_defect(good, d, ctx.rng("undo", d)))
+            img = targets[rel]
+        states.append(State(sid, prof, "undo:%s:%s" % (d, rel), img, log, "undolog"))
+    return states, rec_log
+
+
 def sparse_copy(src, dst):
     """Copy keeping holes (tmpfs-friendly): 8 MiB images occupy ~2.5 MiB."""
     with open(src, "rb") as fi, open(dst, "wb") as fo:
@@ -777,7 +959,7 @@ def variant_table(tier, axes=()):
     return v
 
 
-def _build_profile(b, env, outdir, tier, seed, prof, args, only):
+def _build_profile(b, env, outdir, tier, seed, prof, args, only, axes=(), undo_catalogue=(), iotrace=None):
     work = os.path.join(outdir, "gen_" + prof)
     os.makedirs(work, exist_ok=True)
     ctx = Ctx(b, env, work, seed)
@@ -823,7 +1005,7 @@ def _build_profile(b, env, outdir, tier, seed, prof, args, only):
             raise GenError("tune2fs -z wrote no undo file for %s" % prof)
     with cf.ThreadPoolExecutor(max_workers=5) as ex:
         fu = ex.submit(make_undo)
-        for r in ex.map(one, variant_table(tier)):
+        for r in ex.map(one, variant_table(tier, axes)):
             if isinstance(r, State):
                 states.append(r)
             elif r:
@@ -833,16 +1015,27 @@ def _build_profile(b, env, outdir, tier, seed, prof, args, only):
         states.append(State(usid, prof, "post_tune_undo", udst, undo, "undo"))
     else:
         os.unlink(udst)
-    return [s._replace(undo=undo) for s in states], skipped
+    states = [s._replace(undo=undo) for s in states]
+    cat = [c for c in undo_catalogue if not only or "%s/undo:%s:%s" % (prof, c["defect"], c["rel"]) in only or
+           (c["defect"], c["rel"]) == ("none", "recorded")]        # (the finished log is also the FOREIGN -z file of the profile)
+    if cat:
+        ust, rec_log = build_undo_catalogue(ctx, prof, base, outdir, cat, iotrace)
+        states += ust
+    return states, skipped
 
 
-def build_states(b, env, outdir, tier, seed, only=None):
+def build_states(b, env, outdir, tier, seed, only=None, axes=(), undo_catalogue=(), iotrace=None):
     """Build every state (profiles in parallel); returns (states, skipped) -- skipped = [(id, reason)] for recipes that
     do not apply to a profile.  `only` = list of state ids to build (replay)."""
     os.makedirs(outdir, exist_ok=True)
     profs = [(p, a) for p, a in PROFILES if not only or any(o.startswith(p + "/") for o in only)]
     states, skipped = [], []
     with cf.ThreadPoolExecutor(max_workers=len(profs) or 1) as ex:
-        for st, sk in ex.map(lambda pa: _build_profile(b, env, outdir, tier, seed, pa[0], pa[1], only), profs):
+        for st, sk in ex.map(lambda pa: _build_profile(b, env, outdir, tier, seed, pa[0], pa[1], only, axes, undo_catalogue, iotrace), profs):
             states += st; skipped += sk
     return states, skipped
+
+
+def finished_log(outdir, prof):
+    """Path of the finished undo log of the profile's recording (the FOREIGN undo file of every other image state)."""
+    return os.path.join(outdir, "%s__undo_none.log" % prof)
